@@ -9,6 +9,7 @@ import (
 	"path/filepath"
 	"strings"
 	"sync"
+	"sync/atomic"
 	"time"
 )
 
@@ -79,12 +80,18 @@ type solverSpec struct {
 }
 
 var solvers = []solverSpec{
+	// E-matching only (no model-based quantifier instantiation): fastest and most stable on these VCs; unsat is sound either way
+	{"z3-new/ematch", func(f string, t int) []string {
+		return []string{"z3-new", fmt.Sprintf("-T:%d", t), "smt.auto_config=false", "smt.mbqi=false", "smt.random_seed=1", f}
+	}},
 	{"z3-new", func(f string, t int) []string { return []string{"z3-new", fmt.Sprintf("-T:%d", t), "smt.random_seed=1", f} }},
 	{"z3", func(f string, t int) []string { return []string{"z3", fmt.Sprintf("-T:%d", t), "smt.random_seed=1", f} }},
 	{"cvc5", func(f string, t int) []string {
 		return []string{"cvc5", fmt.Sprintf("--tlimit=%d", t*1000), "--seed=1", f}
 	}},
 }
+
+var longRetries int32
 
 type solveResult struct {
 	verdict string // unsat, sat, unknown
@@ -181,6 +188,15 @@ func solveOne(o *Obligation, dir string, quickSec, raceSec int) {
 		if rr.millis > o.Millis {
 			o.Millis = rr.millis
 		}
+	}
+	// last resort against machine load: a few obligations per run get one long, unshared attempt
+	if atomic.AddInt32(&longRetries, 1) <= 3 {
+		rr := runSolver(context.Background(), solvers[0], file, raceSec*3)
+		if rr.verdict == "unsat" {
+			o.Status, o.Solver, o.Millis = "discharged", rr.solver+"/long", total+rr.millis
+			return
+		}
+		outs = append(outs, "long retry: "+firstLine(rr.output))
 	}
 	o.Status = "failed"
 	o.Solver = "none"
